@@ -355,13 +355,43 @@ def _d7(chk, fb):
         # explicit refusals: own throws and calls of the *MustExist_ / precondition helpers (which throw)
         throws = [n for n in walk(f.body) if n["k"] == "CXXThrowExpr"]
         throws += [c for c in f.calls() if c["callee"]["name"].endswith("MustExist_")]
+        # calls of a private helper of the graph that itself raises explicitly (unlinkInNodeStructure_ ...): the helper's test is a
+        # refusal made at the call site
+        for c in f.calls():
+            if c["callee"].get("inrepo") and ("obj" not in c or strip(f.obj(c))["k"] == "CXXThisExpr") and not c["callee"]["name"].endswith("MustExist_"):
+                for t in fb.targets(c):
+                    if t.body is not None and t.rec.get("access", 0) == 2 and (t.cls or "") == G and any(x["k"] == "CXXThrowExpr" for x in walk(t.body)):
+                        throws.append(c)
         if not throws:
             continue
         n_fn += 1
         bad = None
+        helper_refusals = {id(c) for c in throws if is_call(c) and not c["callee"]["name"].endswith("MustExist_")}
+        maybe = None
         for t in throws:
             for w in writes:
                 if w is t or f.contains(w, t) or f.contains(t, w):
+                    continue
+                if id(t) in helper_refusals:
+                    # a helper that tests and then writes, called after an earlier write.  Recognised wrong: the same helper called
+                    # with (x, y) and then (y, x) without excluding x == y - for x == y the second call repeats the first, whose
+                    # erasure is exactly what the second one tests for.  Any other pair depends on an invariant: undecided.
+                    wc = w if is_call(w) and w["callee"]["name"] == t["callee"]["name"] else next((x for x in walk(w) if is_call(x) and x["callee"]["name"] == t["callee"]["name"]), None)
+                    wb, tb = cfg.stmt_block(w), cfg.stmt_block(t)
+                    after = wb is not None and tb is not None and ((wb == tb and e1.earlier_in_block(cfg, w, t)) or (wb != tb and e1.path_exists(cfg, wb, tb)))
+                    if not after:
+                        continue
+                    if wc is not None and wc is not t:
+                        a1, a2 = [render(x) for x in f.args(wc)], [render(x) for x in f.args(t)]
+                        if len(a1) >= 2 and a1[:2] == a2[:2][::-1] and a1[0] != a1[1]:
+                            x_, y_ = a1[0], a1[1]
+                            distinct, _ = e1.guarded_by(cfg, tb, lambda facts: any((tt in ("(%s != %s)" % (x_, y_), "(%s != %s)" % (y_, x_)) and tr) or (tt in ("(%s == %s)" % (x_, y_), "(%s == %s)" % (y_, x_)) and tr is False) for tt, tr, _ in facts))
+                            if distinct:
+                                continue
+                            bad = (w, t)
+                            mirror = (x_, y_)
+                            break
+                    maybe = maybe or (w, t)
                     continue
                 # 'if (table.erase(key) == 0) throw ...': the write is the test itself, and the throwing outcome means nothing was changed
                 gi = f.enclosing(t, ("IfStmt",)) if t["k"] == "CXXThrowExpr" else None
@@ -376,13 +406,72 @@ def _d7(chk, fb):
                     break
             if bad:
                 break
-        if bad:
+        if bad and id(bad[1]) in helper_refusals:
+            chk.refuted("D7", f.key, "refusal-after-write", f.loc(bad[1]),
+                        "%s calls %s(%s, %s) and then %s(%s, %s) without excluding %s == %s: for a relation of a node with itself the second call repeats the first, finds the relation already erased and raises "
+                        "after the node table was changed (line %s) and before the edge table is: the refused call leaves an edge that none of its end points lists" % (
+                            f.name, bad[1]["callee"]["name"], mirror[0], mirror[1], bad[1]["callee"]["name"], mirror[1], mirror[0], mirror[0], mirror[1], bad[0].get("l")),
+                        witness={"history": "undirected graph: link(a, a); unlink(a, a) raises; getAllEdges() still lists the edge while getEdges(a) is empty"})
+        elif bad:
             chk.refuted("D7", f.key, "refusal-after-write", f.loc(bad[1]),
                         "%s can raise at line %s after it has already changed the graph structure at line %s (%s): the refused call leaves the node table and the edge table in disagreement" % (
                             f.name, bad[1].get("l"), bad[0].get("l"), render(bad[0])[:60]), witness={"history": "a call that is refused, then any query"})
+        elif maybe:
+            chk.unknown("D7", f.key, "refusal-after-write", f.loc(maybe[1]), "%s is called after a structure write and tests before it writes: whether it can refuse there depends on the both-directions invariant of the tables" % maybe[1]["callee"]["name"])
         else:
             chk.proved("D7", f.key, "refusal-before-write", f.loc(), "%d refusal(s), %d structure write(s), no refusal reachable after a write" % (len(throws), len(writes)))
     chk.floor("D7", "GlobalGraph members that both refuse and write", n_fn, 5)
+
+
+def _d8(chk, fb):
+    """a relation recorded with map::insert / emplace whose result is thrown away is a conditional write (nothing happens when the key
+    is already there); the edge table entry of the same link is written unconditionally.  Unless the absence of the relation is
+    tested first (in the helper or in every non-private caller), linking two already linked nodes leaves an edge in the edge table
+    that no node lists"""
+    import re
+    pat = re.compile(r"->second\.(first|second)$|^nodeStructure_\[\w+\]\.(first|second)$")
+    n_sites = 0
+    for h in sorted(_graph_fns(fb), key=lambda x: x.key):
+        if (h.cls or "") != G:
+            continue
+        for c in h.calls():
+            if c["callee"]["name"] not in ("insert", "emplace") or "obj" not in c or not pat.search(render(h.obj(c))):
+                continue
+            par = h.parent.get(c["id"])
+            while par is not None and par["k"] in ("ExprWithCleanups", "ImplicitCastExpr", "MaterializeTemporaryExpr", "CXXBindTemporaryExpr"):
+                par = h.parent.get(par["id"])
+            if par is None or par["k"] not in ("CompoundStmt", "IfStmt", "ForStmt", "WhileStmt", "CXXForRangeStmt"):
+                continue        # the result is used
+            n_sites += 1
+            con = "unchecked-insert:" + ("forward" if render(h.obj(c)).endswith("first") else "backward") + "-relations"
+
+            def absent(fn, at):
+                """an absence test of a relation (find(..) == end / count(..) == 0 on a relation map, or a throwing 'already linked' test) dominates `at` in fn"""
+                def est(facts):
+                    for t, tr, nd in facts:
+                        if re.search(r"second\.(first|second)\.(find|count)\(|\]\.(first|second)\.(find|count)\(", t):
+                            return True
+                    return False
+                return e1.guarded_by(fn.cfg, fn.cfg.stmt_block(at), est)[0]
+            if absent(h, c):
+                chk.proved("D8", h.key, con, h.loc(c), "insertion dominated by a test of the relation map")
+                continue
+            # callers: every non-private member of the graph that reaches the helper and also writes the edge table
+            callers = []
+            for g_ in _graph_fns(fb):
+                for cc in g_.calls():
+                    if cc["callee"].get("inrepo") and any(t.key == h.key for t in fb.targets(cc)):
+                        callers.append((g_, cc))
+            unguarded = [(g_, cc) for g_, cc in callers if not absent(g_, cc) and any(x["callee"]["name"] == "linkInEdgeStructure_" or "edgeStructure_[" in render(x) for x in g_.calls())]
+            if unguarded:
+                g_, cc = unguarded[0]
+                chk.refuted("D8", h.key, con, h.loc(c),
+                            "the relation is recorded with %s() and the result is discarded: when the two nodes are already linked nothing is recorded, while %s (line %s) goes on to write the edge table for the new edge id "
+                            "unconditionally - the edge exists in edgeStructure_ and no node lists it" % (c["callee"]["name"], g_.name, cc.get("l")),
+                            witness={"history": "directed graph: link(a, b); link(a, b): getAllEdges() has two edges, getEdges(a) one"})
+            else:
+                chk.proved("D8", h.key, con, h.loc(c), "every caller that writes the edge table tests the relation first")
+    chk.floor("D8", "relation insertions with a discarded result", n_sites, 2)
 
 
 def run(chk, fb, tier):
@@ -400,4 +489,6 @@ def run(chk, fb, tier):
     _d5(chk, fb)
     _d6(chk, fb)
     _d7(chk, fb)
+    chk.rule("D8", "a relation inserted into the node table with a discarded insert()/emplace() result is preceded by a test that the relation is absent, in the helper or in every caller that also writes the edge table")
+    _d8(chk, fb)
     chk.assume("unchecked map::find results on absent ids inside protected GlobalGraph members are undefined behaviour that the installed libstdc++ tolerates (an exception is still raised): not asserted")
